@@ -357,6 +357,10 @@ func buildShape(rng *rand.Rand, name, shape string) *vtree {
 		a := t.extend(rng, t.genesis, 3, vLean, &norm)
 		t.extend(rng, t.genesis, 3, vLean, &norm)
 		t.extend(rng, a[0], 2, vLean, &norm)
+	case "ghost": // two branches of empty blocks from the same parent: siblings with the same state root, the second branch longer
+		p := t.extend(rng, t.genesis, 1, vNone, &norm)
+		t.extend(rng, p[0], 2, vNone, &norm)
+		t.extend(rng, p[0], 3, vNone, &norm)
 	case "late-overtake": // side branch becomes heaviest only after two more batches
 		a := t.extend(rng, t.genesis, 4, vRich, &norm)
 		b := t.extend(rng, a[0], 2, vRich, &norm)
@@ -568,6 +572,50 @@ func runRewindRedeliver(rng *rand.Rand, t *vtree, w *vwriter) {
 	}
 }
 
+// ghost state (known finding D18): siblings a, b with the same state root; a pruning node imports a's branch and is restarted
+// (the state of the common parent is gone), then receives b - stored without execution - and b's descendants, which outweigh
+// a's branch
+func runGhost(t *vtree, w *vwriter) {
+	done := 0
+	for _, p := range t.blocks {
+		if !p.valid || p.parent == nil || done >= 1 {
+			continue
+		}
+		for _, a := range p.children {
+			for _, b := range p.children {
+				if a == b || !a.valid || !b.valid || a.ssig != b.ssig || len(a.children) == 0 || len(b.children) == 0 || done >= 1 {
+					continue
+				}
+				leaf := func(v *vblk) *vblk {
+					for {
+						var next *vblk
+						for _, c := range v.children {
+							if c.valid {
+								next = c
+							}
+						}
+						if next == nil {
+							return v
+						}
+						v = next
+					}
+				}
+				la, lb := leaf(a), leaf(b)
+				if len(pathTo(lb)) <= len(pathTo(la)) {
+					continue
+				}
+				done++
+				n := t.newNode(w, "pruning", "ghost")
+				n.insert(pathTo(la))
+				n.guard(func() (int, error) { n.bc.Stop(); n.open(); return 0, nil })
+				n.insert([]*vblk{b})
+				n.insert(pathTo(lb)[len(pathTo(b)):])
+				n.stop()
+			}
+		}
+	}
+}
+
 // header-first import of batches that overlap what the node already has and end in a header breaking a consensus rule: the
 // batch must fail and the bad header must not be stored (one-by-one and batch verification agree)
 func runHeaderCorruptions(rng *rand.Rand, t *vtree, w *vwriter) {
@@ -620,6 +668,14 @@ func TestVerifChain(t *testing.T) {
 		runTree(rng, tr, w, nHist, true, emitTree)
 		ntree++
 	}
+	// 1b. ghost state (known finding D18): two empty siblings have the same state root; its own generator, so that the trees
+	// that follow are what they were
+	{
+		grng := rand.New(rand.NewSource(seed*7919 + 3))
+		tr := buildShape(grng, fmt.Sprintf("shape-ghost-%d", seed), "ghost")
+		runTree(grng, tr, w, 2, true, emitTree)
+		ntree++
+	}
 	// 2. random trees in both configs
 	for i := 0; i < nTrees; i++ {
 		cfg := []string{"steep", "test"}[i%2]
@@ -664,6 +720,7 @@ func runTree(rng *rand.Rand, tr *vtree, w *vwriter, nHist int, rewind bool, emit
 	runCorruptions(rng, tr, bw, []string{"archive", "pruning"}[rng.Intn(2)], "corrupt", 1)
 	runHeaderCorruptions(rng, tr, bw)
 	runRewindRedeliver(rng, tr, bw)
+	runGhost(tr, bw)
 	emitTree(tr)
 	for _, e := range buf.evs {
 		w.emit(e)
